@@ -62,8 +62,8 @@ def main():
             d = demos[0]
             runner = '/venv/bin/python' if d.endswith('.py') else 'bash'
             env = dict(os.environ)
-            r0 = sh('%s %s /repo' % (runner, d), env=env, timeout=900)
-            r1 = sh('%s %s %s' % (runner, d, wt), env=env, timeout=900)
+            r0 = sh('%s %s /repo' % (runner, d), env=dict(env, PI2_REPO='/repo'), timeout=900)
+            r1 = sh('%s %s %s' % (runner, d, wt), env=dict(env, PI2_REPO=wt), timeout=900)
             meta['demo_on_original_rc'] = r0.returncode
             meta['demo_on_patched_rc'] = r1.returncode
             meta['demo_patched_tail'] = (r1.stdout + r1.stderr)[-400:]
